@@ -7,10 +7,6 @@ From Verif Require Import Proofs.ScriptCodec Proofs.AddrScriptSpec Proofs.AddrSc
 Import ListNotations.
 Open Scope Z_scope.
 
-Lemma lib_varstr_long a b r : lib_varstr (a :: b :: r) =
-  match lib_cs_enc (Z.of_nat (List.length (a :: b :: r))) with Some p => Some (p ++ a :: b :: r) | None => None end.
-Proof. destruct a; reflexivity. Qed.
-
 Section WithH.
 Variable H160 : bytes -> bytes.
 Hypothesis H160_len : forall x, List.length (H160 x) = 20%nat.
@@ -39,8 +35,51 @@ Proof.
   destruct w; [left; destruct ms; reflexivity | left; destruct ms; reflexivity | right].
   destruct Hc as [C1 C2]. intros x v Hin Hv. simpl in Hin.
   destruct Hin as [<-|[<-|[]]].
-  - explode h160 L1. rewrite lib_varstr_long in Hv. vm_compute in Hv. injection Hv as <-. apply tb_of. exact C1.
-  - explode s256 L2. rewrite lib_varstr_long in Hv. vm_compute in Hv. injection Hv as <-. apply tb_of. exact C2.
+  - explode h160 L1. vm_compute in Hv. injection Hv as <-. apply tb_of. exact C1.
+  - explode s256 L2. vm_compute in Hv. injection Hv as <-. apply tb_of. exact C2.
+Qed.
+
+
+Lemma lock_is_spec_hd fx net w ms h160 s256 pub :
+  In net all_networks -> List.length h160 = 20%nat -> List.length s256 = 32%nat -> pub <> [] ->
+  hd_clean fx w h160 s256 pub -> pfx_ok fx net ->
+  match lib_hd_address_obj H160 fx net w ms h160 s256 with
+  | Some ao =>
+    ao_addr ao = spec_address net (spec_hd_dest H160 w ms h160 s256) /\
+    out_is (lib_out_hd H160 fx net ao pub w ms)
+           (spec_lock_script (spec_hd_dest H160 w ms h160 s256))
+           (stype_name (d_stype (spec_hd_dest H160 w ms h160 s256))) (nw_name net)
+           (OaIs (spec_address net (spec_hd_dest H160 w ms h160 s256)))
+  | None => False
+  end.
+Proof.
+  intros Hn L1 L2 Hpub (C1 & C2 & C3 & C4) Hp.
+  unfold lib_hd_address_obj.
+  rewrite address_make_data_tb;
+    [ | apply tb_of; exact C1 | apply tb_of; exact C2 | exact Hp | left; discriminate
+      | apply hd_seg_free; assumption ].
+  destruct pub as [|pa pr]; [congruence|].
+  unfold lib_out_hd.
+  assert (Hout : forall ao, lib_output H160 fx {| a_addr := AaHd ao (pa :: pr) w ms; a_hash := []; a_pubkey := [];
+                                                a_lock := []; a_stype := None; a_witver := 0; a_enc := None; a_net := net |} =
+                            lib_output_k H160 fx {| a_addr := AaHd ao (pa :: pr) w ms; a_hash := []; a_pubkey := [];
+                                                a_lock := []; a_stype := None; a_witver := 0; a_enc := None; a_net := net |}
+                                         (SOk [] [] [])).
+  { intros ao. rewrite lib_output_eq; [reflexivity|reflexivity|reflexivity|reflexivity|exact C3|reflexivity]. }
+  pose proof (H160_len (x00 :: x14 :: h160)) as La. pose proof (H160_len (x00 :: x20 :: s256)) as Lb.
+  remember (H160 (x00 :: x14 :: h160)) as ha eqn:Ea. remember (H160 (x00 :: x20 :: s256)) as hb eqn:Eb.
+  clear C1 C2 C3 C4 Hp.
+  destruct fx as [fw fn fp tb0].
+  explode h160 L1. explode s256 L2. explode ha La. explode hb Lb.
+  destruct w, ms; each_net Hn; destruct fw, fn, fp;
+    (cbv beta iota delta [spec_hd_dest]; rewrite <- ?Ea, <- ?Eb;
+     match goal with
+     | |- match ?X with Some _ => _ | None => _ end =>
+         let v := eval vm_compute in X in
+         let Ex := fresh "Ex" in
+         assert (Ex : X = v) by (vm_compute; reflexivity); rewrite Ex; clear Ex
+     end; rewrite <- ?Ea, <- ?Eb; cbv beta iota; rewrite Hout;
+     split; [vm_compute; reflexivity|]; vm_compute; eexists; repeat split; reflexivity).
 Qed.
 
 End WithH.
